@@ -160,7 +160,7 @@ theorem jalali_getMonthDayFromYdays_chk_val (yd : Int) (h1 : 1 ≤ yd) (h2 : yd 
   have hr := jalali_bisect_range yd h1
   have hu : GoSem.u8 ((Jalali.bisect yd 0 13 : Nat) : Int) = (Jalali.bisect yd 0 13 : Nat) := GoSem.u8_id (by omega) (by omega)
   have hs := jalali_sum_range ((Jalali.bisect yd 0 13 : Nat) : Int) (by omega) (by omega)
-  simp (disch := omega) only [jalali_getMonthDayFromYdays_chk, SrcExt.utils_BisectLeft, jalali_bisect_eq, bind, Option.bind, pure, hu,
+  simp (disch := omega) only [jalali_getMonthDayFromYdays_chk, utils_BisectLeft_chk_eq, utils_BisectLeft_eq, jalali_bisect_eq, bind, Option.bind, pure, hu,
     jalali_sum_idx _ (show (1:Int) ≤ (Jalali.bisect yd 0 13 : Nat) by omega) (by omega), Jalali.getMonthDay, GoSem.chk64_eq]
 
 theorem jalali_IsLeap_chk33 (y : Int) (h0 : -100000000 ≤ y) (h1 : y ≤ 100000000) :
